@@ -70,6 +70,10 @@ pub struct SPlan {
     pub late_session_after_us: Option<u64>,
     #[serde(default)]
     pub late_session_really: bool,
+    /// idle connections to the ping / speedtest hosts through the real accept loop and TLS
+    /// (only when Core::listen() runs): (speedtest?, offer h2?, opens at)
+    #[serde(default)]
+    pub service_sessions: Vec<(bool, bool, u64)>,
 }
 
 impl Scenario for ShutdownScn {
@@ -147,6 +151,9 @@ impl Scenario for ShutdownScn {
             completion_after_us,
             late_session_after_us: if rng.chance(1, 6) { Some(rng.size(0, 100_000)) } else { None },
             late_session_really: false,
+            service_sessions: (0..if rng.chance(1, 3) { 1 + rng.usize_below(2) } else { 0 })
+                .map(|_| (rng.chance(1, 2), rng.chance(1, 2), near(&mut rng)))
+                .collect(),
         };
         to_plan(&plan)
     }
@@ -218,6 +225,8 @@ pub struct Obs {
     pub end: u64,
     /// the late client found the lock taken (completion() being awaited) / free
     pub late_found_lock_held: Option<bool>,
+    /// per service session: (TLS established at, endpoint closed the connection at, error)
+    pub services: Vec<(Option<u64>, Option<u64>, Option<String>)>,
 }
 
 type Sh<T> = Arc<Mutex<T>>;
@@ -259,7 +268,13 @@ async fn h2_echo(tx: &mut h2::SendStream<Bytes>, body: &mut h2::RecvStream, tag:
 
 async fn run(plan: SPlan) -> Obs {
     let obs: Sh<Obs> = Arc::new(Mutex::new(Obs::default()));
-    let cfg = EpConfig { listen: LISTEN.parse().unwrap(), ..EpConfig::default() };
+    let cfg = EpConfig {
+        listen: LISTEN.parse().unwrap(),
+        speedtest: true,
+        ping_hosts: vec![endpoint::HostCfg { hostname: "ping.example".into(), cert: 1, allowed_sni: vec![] }],
+        speed_hosts: vec![endpoint::HostCfg { hostname: "speed.example".into(), cert: 2, allowed_sni: vec![] }],
+        ..EpConfig::default()
+    };
     let ep = match endpoint::build(&cfg, endpoint::registry(&cfg)) {
         Ok(e) => e,
         Err(e) => {
@@ -270,6 +285,7 @@ async fn run(plan: SPlan) -> Obs {
     {
         let mut o = obs.lock().unwrap();
         o.parts = vec![PartObs::default(); plan.parts.len()];
+        o.services = vec![(None, None, None); plan.service_sessions.len()];
         o.sessions = plan.sessions.iter().map(|s| SessObs { tunnels: vec![TunObs::default(); s.tunnels.len()], ..SessObs::default() }).collect();
     }
     world::with(|w| {
@@ -399,6 +415,39 @@ async fn run(plan: SPlan) -> Obs {
                 g.sessions[s].closed_by_endpoint_at = peer.endpoint_closed_at();
             }
         }));
+    }
+
+    // idle clients of the ping / speedtest hosts
+    if plan.core_listens {
+        for (k, (speed, h2, at)) in plan.service_sessions.iter().cloned().enumerate() {
+            let o = obs.clone();
+            let seed = plan.seed;
+            let until = plan.submit_at_us + plan.completion_after_us + 500_000;
+            tasks.push(tokio::spawn(async move {
+                sleep_until_us(at).await;
+                let params = crate::tls::TlsParams {
+                    sni: Some(if speed { "speed.example".into() } else { "ping.example".into() }),
+                    alpn: if h2 { vec![b"h2".to_vec(), b"http/1.1".to_vec()] } else { vec![b"http/1.1".to_vec()] },
+                    seg: world::Cut::All,
+                    max_fragment: None,
+                    pace: None,
+                };
+                let client: SocketAddr = format!("203.0.113.{}:44000", 120 + k).parse().unwrap();
+                match crate::patht::connect_tls(LISTEN.parse().unwrap(), client, params, Rng::new(seed ^ 0x5e ^ k as u64)).await {
+                    Ok((tls, conn)) => {
+                        o.lock().unwrap().services[k].0 = Some(world::now_us());
+                        // stay idle until the endpoint ends the connection
+                        while world::now_us() < until && conn.endpoint_closed_at().is_none() {
+                            sleep_us(500).await;
+                        }
+                        o.lock().unwrap().services[k].1 = conn.endpoint_closed_at();
+                        drop(tls);
+                        conn.reset();
+                    }
+                    Err(e) => o.lock().unwrap().services[k].2 = Some(e),
+                }
+            }));
+        }
     }
 
     // the late client
@@ -782,6 +831,37 @@ fn judge(plan: &SPlan, o: &Obs, out: &mut Outcome) {
     }
 
     if plan.core_listens {
+        for (k, ((speed, h2, _), (opened, closed, err))) in plan.service_sessions.iter().zip(&o.services).enumerate() {
+            let kind = if *speed { "speedtest" } else { "ping" };
+            let Some(opened) = opened else {
+                // refused: only legitimate once the listener is gone
+                out.cell(format!("shutdown:{}:not-established", kind));
+                let _ = err;
+                continue;
+            };
+            out.cell(format!("shutdown:{}:{}:{}", kind, if *h2 { "h2" } else { "h1" }, if *opened < ts { "before-submit" } else { "after-submit" }));
+            if *opened + 25_000 >= ts {
+                // raced with the submission or came later: no duty to notice, but it may hold a
+                // guard until its client goes away, which only the client decides
+                if *opened <= tc {
+                    unbounded = true;
+                }
+                continue;
+            }
+            match closed {
+                Some(c) if *c + eps >= ts && *c <= ts + 60_000 => {
+                    if *c > last_finish {
+                        last_finish = *c;
+                        who = format!("{} session {}", kind, k);
+                    }
+                }
+                other => out.violate(
+                    "C19",
+                    format!("shutdown:{}:session-not-wound-down", kind),
+                    format!("idle {} connection {} (established {}) was closed at {:?}, submission at {}", kind, k, opened, other, ts),
+                ),
+            }
+        }
         match o.core_listen_returned_at {
             Some(t) => {
                 if t + eps < ts || t > ts + eps {
